@@ -35,7 +35,7 @@ var All = []string{
 	"create-eligible", "create-once", "dup-resolution", "ineligible-cleanup", "unknown-untouched",
 	"budget", "canary-confinement", "canary-list-growth", "canary-label", "promotion-rule",
 	"paused-frozen", "rate", "ownership", "rs-identity", "rs-gc", "status-function", "rs-status-order",
-	"canary-nodes-valid", "no-panic",
+	"canary-nodes-valid", "no-panic", "canary-verdict",
 }
 
 // Of builds a Set.
@@ -267,6 +267,9 @@ func Check(r *sim.Record, on Set, h *History) []V {
 		}
 		if on["rs-status-order"] {
 			add(rsStatusOrder(r, v)...)
+		}
+		if on["canary-verdict"] {
+			add(canaryVerdict(r, v)...)
 		}
 	}
 	if r.Actor == sim.ActorEDS {
@@ -884,4 +887,294 @@ func Facts(r *sim.Record) []string {
 		add("sync-skipped-by-frequency-gate")
 	}
 	return out
+}
+
+// ---------------------------------------------------------------- C06
+
+var cannotStartReasons = map[string]bool{
+	"ErrImagePull": true, "ImagePullBackOff": true, "ImageInspectError": true, "ErrImageNeverPull": true, "RegistryUnavailable": true,
+	"InvalidImageName": true, "CreateContainerConfigError": true, "CreateContainerError": true, "PreStartHookError": true,
+	"PostStartHookError": true, "PreCreateHookError": true,
+}
+
+// Tri is a three-valued verdict.
+type Tri int
+
+// Verdict values.
+const (
+	MustNotBe Tri = iota
+	Either
+	MustBe
+)
+
+func (t Tri) String() string { return [...]string{"must-not", "either", "must"}[t] }
+
+// CanaryFacts is what the canary verdict is computed from (all API-visible).
+type CanaryFacts struct {
+	Pods        []*corev1.Pod
+	Canary      *edsv1.ExtendedDaemonSetSpecStrategyCanary
+	Prior       *edsv1.ExtendedDaemonSetReplicaSetStatus
+	Annotations map[string]string
+	Now         time.Time
+}
+
+func highestRestart(p *corev1.Pod) int32 {
+	var m int32
+	for _, lists := range [][]corev1.ContainerStatus{p.Status.ContainerStatuses, p.Status.InitContainerStatuses, p.Status.EphemeralContainerStatuses} {
+		for _, s := range lists {
+			if s.RestartCount > m {
+				m = s.RestartCount
+			}
+		}
+	}
+	return m
+}
+
+func waitingReasons(p *corev1.Pod) []string {
+	var out []string
+	for _, lists := range [][]corev1.ContainerStatus{p.Status.ContainerStatuses, p.Status.InitContainerStatuses, p.Status.EphemeralContainerStatuses} {
+		for _, s := range lists {
+			if s.State.Waiting != nil {
+				out = append(out, s.State.Waiting.Reason)
+			}
+		}
+	}
+	return out
+}
+
+// CanaryVerdict is the reference of C06: what Canary-Failed and Canary-Paused must be
+// after a canary sync that evaluated the given pods. why explains the verdicts.
+func CanaryVerdict(f CanaryFacts) (failed, paused Tri, why string) {
+	c := f.Canary
+	ap, af := c.AutoPause, c.AutoFail
+	priorFailed := oracle.RSCondTrue(f.Prior, edsv1.ConditionTypeCanaryFailed)
+	priorPaused := oracle.RSCondTrue(f.Prior, edsv1.ConditionTypeCanaryPaused)
+	var notes []string
+	failTrig, failMaybe := false, false
+	if len(f.Pods) > 0 && af != nil && af.Enabled != nil && *af.Enabled {
+		for _, p := range f.Pods {
+			if af.MaxRestarts != nil && highestRestart(p) > *af.MaxRestarts {
+				failTrig = true
+				notes = append(notes, fmt.Sprintf("pod %s restarted %d times > autoFail.maxRestarts %d", p.Name, highestRestart(p), *af.MaxRestarts))
+			}
+		}
+		if af.MaxRestartsDuration != nil {
+			var latest time.Time
+			for _, p := range f.Pods {
+				for _, s := range p.Status.ContainerStatuses {
+					if s.RestartCount > 0 && s.LastTerminationState.Terminated != nil && s.LastTerminationState.Terminated.FinishedAt.After(latest) {
+						latest = s.LastTerminationState.Terminated.FinishedAt.Time
+					}
+				}
+			}
+			if rc := oracle.RSCond(f.Prior, edsv1.ConditionTypePodRestarting); rc != nil {
+				spanPrev := rc.LastUpdateTime.Sub(rc.LastTransitionTime.Time)
+				// stored timestamps have one-second resolution: a band of one second around the limit is "either"
+				if spanPrev > af.MaxRestartsDuration.Duration+time.Second {
+					failTrig = true
+					notes = append(notes, fmt.Sprintf("restarts observed over %s > autoFail.maxRestartsDuration %s", spanPrev, af.MaxRestartsDuration.Duration))
+				} else if spanPrev > af.MaxRestartsDuration.Duration-time.Second {
+					failMaybe = true
+				} else if !latest.IsZero() && latest.Sub(rc.LastTransitionTime.Time) > af.MaxRestartsDuration.Duration-time.Second {
+					failMaybe = true // only the restart seen in this very sync pushes the span over the limit
+				}
+			}
+		}
+		if af.CanaryTimeout != nil {
+			age := time.Duration(0)
+			if cc := oracle.RSCond(f.Prior, edsv1.ConditionTypeCanary); cc != nil && cc.Status == corev1.ConditionTrue {
+				age = f.Now.Sub(cc.LastTransitionTime.Time)
+			}
+			if age > af.CanaryTimeout.Duration {
+				failTrig = true
+				notes = append(notes, fmt.Sprintf("canary lasted %s > autoFail.canaryTimeout %s", age, af.CanaryTimeout.Duration))
+			} else if age+time.Second > af.CanaryTimeout.Duration {
+				failMaybe = true // within the one-second resolution of the stored start
+			}
+		}
+	}
+	switch {
+	case priorFailed:
+		failed = MustBe
+		notes = append(notes, "already failed")
+	case failTrig:
+		failed = MustBe
+	case failMaybe:
+		failed = Either
+	default:
+		failed = MustNotBe
+	}
+	pauseSrc := priorPaused || f.Annotations[oracle.AnnCanaryPaused] == "true"
+	unpaused := f.Annotations[oracle.AnnCanaryUnpaused] == "true"
+	pauseTrig, pauseMaybe := false, false
+	if ap != nil && ap.Enabled != nil && *ap.Enabled {
+		for _, p := range f.Pods {
+			if ap.MaxRestarts != nil && highestRestart(p) > *ap.MaxRestarts {
+				pauseTrig = true
+				notes = append(notes, fmt.Sprintf("pod %s restarted %d times > autoPause.maxRestarts %d", p.Name, highestRestart(p), *ap.MaxRestarts))
+			}
+			for _, reason := range waitingReasons(p) {
+				cannot := cannotStartReasons[reason]
+				creating := reason == "ContainerCreating"
+				if !cannot && !creating {
+					continue
+				}
+				if ap.MaxSlowStartDuration == nil {
+					if cannot {
+						pauseTrig = true
+						notes = append(notes, fmt.Sprintf("pod %s cannot start: %s", p.Name, reason))
+					}
+					continue
+				}
+				if p.Status.StartTime == nil {
+					pauseMaybe = true
+					continue
+				}
+				limit := p.Status.StartTime.Add(ap.MaxSlowStartDuration.Duration)
+				switch {
+				case f.Now.After(limit.Add(time.Second)):
+					pauseTrig = true
+					notes = append(notes, fmt.Sprintf("pod %s in %s for more than maxSlowStartDuration %s", p.Name, reason, ap.MaxSlowStartDuration.Duration))
+				case f.Now.After(limit.Add(-time.Second)):
+					pauseMaybe = true // boundary instant (and second-truncated start time)
+				}
+			}
+		}
+	}
+	switch {
+	case failed != MustNotBe:
+		paused = Either
+	case unpaused:
+		paused = MustNotBe
+		notes = append(notes, "manually unpaused")
+	case pauseSrc:
+		paused = MustBe
+		notes = append(notes, "paused before (condition or annotation)")
+	case len(f.Pods) == 0:
+		paused = MustNotBe
+	case pauseTrig:
+		paused = MustBe
+	case pauseMaybe:
+		paused = Either
+	default:
+		paused = MustNotBe
+	}
+	return failed, paused, strings.Join(notes, "; ")
+}
+
+// canaryVerdict judges a canary-role sync that wrote its status.
+func canaryVerdict(r *sim.Record, v *ersView) []V {
+	if v.role != oracle.RoleCanary || !v.full || !v.statusOK || v.eds.Spec.Strategy.Canary == nil || r.Panic != nil {
+		return nil
+	}
+	c := v.eds.Spec.Strategy.Canary
+	if c.AutoPause == nil || c.AutoFail == nil || c.AutoPause.Enabled == nil || c.AutoFail.Enabled == nil {
+		return nil
+	}
+	post := r.Post.RSByKey(v.rs.Namespace, v.rs.Name)
+	if post == nil {
+		return nil
+	}
+	var pods []*corev1.Pod
+	for _, n := range v.canaryNodes {
+		node := r.Pre.NodeByName(n)
+		if node == nil || !oracle.Eligible(&v.rs.Spec.Template, node) {
+			continue
+		}
+		ps := nonUnknown(v.podsByNode[n])
+		if len(ps) == 0 {
+			continue
+		}
+		if len(ps) > 1 || ps[0].Status.Phase == corev1.PodFailed {
+			return nil // which pod the sync evaluates is not determined by the statement
+		}
+		p := ps[0]
+		if p.DeletionTimestamp != nil || p.Annotations[oracle.AnnTemplateHash] != v.rs.Spec.TemplateGeneration {
+			continue
+		}
+		if len(node.Annotations) > 0 {
+			return nil
+		}
+		pods = append(pods, p)
+	}
+	if len(r.Pre.Settings) > 0 {
+		return nil
+	}
+	// the prior status as the strategy sees it: the sync marks the replica set as canary first
+	// (a Canary condition that is not yet True means the canary starts now: age 0, handled by the verdict)
+	prior := v.rs.Status.DeepCopy()
+	wantFailed, wantPaused, why := CanaryVerdict(CanaryFacts{Pods: pods, Canary: c, Prior: prior, Annotations: v.eds.Annotations, Now: r.Pre.Now})
+	gotFailed := oracle.RSCondTrue(&post.Status, edsv1.ConditionTypeCanaryFailed)
+	gotPaused := oracle.RSCondTrue(&post.Status, edsv1.ConditionTypeCanaryPaused)
+	var out []V
+	ctx := fmt.Sprintf("canary sync of %s at %s evaluated pods %s; autoPause=%v/%d autoFail=%v/%d; annotations=%v; %s", v.rs.Name, r.Pre.Now.Format("15:04:05.000"), podRestarts(pods), *c.AutoPause.Enabled, deref32(c.AutoPause.MaxRestarts), *c.AutoFail.Enabled, deref32(c.AutoFail.MaxRestarts), canaryAnn(v.eds), why)
+	if len(pods) == 0 {
+		if oracle.RSCondTrue(&v.rs.Status, edsv1.ConditionTypeCanaryFailed) && !gotFailed {
+			out = append(out, V{"C06", "canary-verdict", "C06/canary-verdict/failed-not-sticky", "Canary-Failed was true and became false while the replica set is still the canary; " + ctx})
+		}
+		if wantPaused == MustNotBe && wantFailed == MustNotBe && gotPaused && v.eds.Annotations[oracle.AnnCanaryUnpaused] == "true" {
+			out = append(out, V{"C06", "canary-verdict", "C06/canary-verdict/paused-although-unpaused", "Canary-Paused is true although the canary was manually unpaused; " + ctx})
+		}
+		return out
+	}
+	if wantFailed == MustBe && !gotFailed {
+		sig := "failed-missing"
+		if oracle.RSCondTrue(&v.rs.Status, edsv1.ConditionTypeCanaryFailed) {
+			sig = "failed-not-sticky"
+		}
+		out = append(out, V{"C06", "canary-verdict", "C06/canary-verdict/" + sig, "Canary-Failed must be true but is not; " + ctx})
+	}
+	if wantFailed == MustNotBe && gotFailed {
+		sig := "failed-without-trigger"
+		if !*c.AutoFail.Enabled {
+			sig = "failed-although-autoFail-disabled"
+		}
+		out = append(out, V{"C06", "canary-verdict", "C06/canary-verdict/" + sig, "Canary-Failed became true without a documented trigger; " + ctx})
+	}
+	if wantPaused == MustBe && !gotPaused {
+		out = append(out, V{"C06", "canary-verdict", "C06/canary-verdict/paused-missing", "Canary-Paused must be true but is not; " + ctx})
+	}
+	if wantPaused == MustNotBe && gotPaused {
+		sig := "paused-without-trigger"
+		switch {
+		case v.eds.Annotations[oracle.AnnCanaryUnpaused] == "true":
+			sig = "paused-although-unpaused"
+		case !*c.AutoPause.Enabled:
+			sig = "paused-although-autoPause-disabled"
+		}
+		out = append(out, V{"C06", "canary-verdict", "C06/canary-verdict/" + sig, "Canary-Paused became true without a documented trigger; " + ctx})
+	}
+	if (gotFailed || gotPaused) && len(v.creates) > 0 {
+		out = append(out, V{"C06", "canary-verdict", "C06/canary-verdict/pod-created-while-paused-or-failed", fmt.Sprintf("%d canary pods created in a sync that ends paused=%v failed=%v; %s", len(v.creates), gotPaused, gotFailed, ctx)})
+	}
+	return out
+}
+
+func deref32(p *int32) int32 {
+	if p == nil {
+		return -1
+	}
+	return *p
+}
+
+func canaryAnn(e *edsv1.ExtendedDaemonSet) string {
+	var s []string
+	for _, k := range []string{oracle.AnnCanaryPaused, oracle.AnnCanaryUnpaused} {
+		if v, ok := e.Annotations[k]; ok {
+			s = append(s, k[strings.LastIndex(k, "/")+1:]+"="+v)
+		}
+	}
+	return "[" + strings.Join(s, " ") + "]"
+}
+
+func podRestarts(pods []*corev1.Pod) string {
+	var s []string
+	for _, p := range pods {
+		start := "nil"
+		if p.Status.StartTime != nil {
+			start = p.Status.StartTime.Format("15:04:05")
+		}
+		s = append(s, fmt.Sprintf("%s{restarts=%d waiting=%v start=%s}", p.Name, highestRestart(p), waitingReasons(p), start))
+	}
+	return "[" + strings.Join(s, " ") + "]"
 }
